@@ -488,7 +488,7 @@ pub fn rw_strategy() -> impl Strategy<Value = Rw> {
 fn run(ctx: &Ctx) {
     ctx.run_regress::<Case, _>(check);
     let strat = || Box::new((any_val(), 0u8..3, any::<bool>(), prop::collection::vec(rw_strategy(), 1..7)).prop_map(|(value, level, expand_empty, rewrites)| Case { value, level, expand_empty, rewrites }));
-    ctx.run_proptest_with("values-x-random-rewrites", ctx.tier.pick(800_000, 10_000_000), strat, check);
+    ctx.run_proptest_with("values-x-random-rewrites", ctx.tier.pick(1_500_000, 12_000_000), strat, check);
     // small documents: each rewrite kind at every applicable site
     let per_type = ctx.tier.pick(60usize, 1200);
     let mut vals: Vec<Val> = vec![];
